@@ -5,10 +5,14 @@ package c05
 import (
 	"bytes"
 	"fmt"
+	"os"
+	"runtime"
 	"runtime/debug"
 	"sort"
+	"strconv"
 	"strings"
 	"sync/atomic"
+	"syscall"
 	"testing"
 	"time"
 
@@ -62,7 +66,7 @@ type outcome struct {
 // finished is false if the walk was still running when the budget ran out
 // (it is abandoned then).  fatal is set when the violation was seen while the
 // walk is still running (memory), so that the process cannot continue.
-func runOnce(c *Case, budget time.Duration) (res outcome, finished bool, fatal bool) {
+func runOnce(c *Case, cpuBudget, wallBudget time.Duration) (res outcome, finished bool, fatal bool) {
 	// A walk which was abandoned (suspect) and is still running allocates
 	// and starts goroutines behind the back of this one: the memory and
 	// goroutine oracles are suspended until it has ended.
@@ -79,19 +83,27 @@ func runOnce(c *Case, budget time.Duration) (res outcome, finished bool, fatal b
 		}
 	})
 	mode := modes[((c.Mode%3)+3)%3]
+	var tid atomic.Int64
 	go func() {
 		var o outcome
+		// the walk keeps its OS thread, so that the CPU time it consumes
+		// can be read from /proc (a measure which does not depend on how
+		// many other processes compete for the cores)
+		runtime.LockOSThread()
+		tid.Store(int64(syscall.Gettid()))
 		defer func() {
 			if r := recover(); r != nil {
 				// Walk recovers per step; this is the harness's own code
 				o.err = fmt.Errorf("panic outside a step: %v\n%s", r, trimStack(debug.Stack()))
 			}
+			runtime.UnlockOSThread()
 			done <- o
 		}()
 		o.st, o.err = Walk(c.Data, mode, c.Password)
 	}()
-	timer := time.NewTimer(budget)
-	defer timer.Stop()
+	stopWatch := make(chan struct{})
+	defer close(stopWatch)
+	expired := watchBudget([]*atomic.Int64{&tid}, cpuBudget, wallBudget, stopWatch)
 	t0 := time.Now()
 	select {
 	case res = <-done:
@@ -101,7 +113,7 @@ func runOnce(c *Case, budget time.Duration) (res outcome, finished bool, fatal b
 			// no bound is claimed for inputs above 1 MiB: keep waiting
 			select {
 			case res = <-done:
-			case <-timer.C:
+			case <-expired:
 				abandon(done)
 				return res, false, false
 			}
@@ -111,7 +123,7 @@ func runOnce(c *Case, budget time.Duration) (res outcome, finished bool, fatal b
 			c.disturbed = true
 			select {
 			case res = <-done:
-			case <-timer.C:
+			case <-expired:
 				abandon(done)
 				return res, false, false
 			}
@@ -119,7 +131,7 @@ func runOnce(c *Case, budget time.Duration) (res outcome, finished bool, fatal b
 		}
 		return outcome{err: fmt.Errorf("memory: live heap reached %d MiB while walking an input of %d bytes and the walk is still running (bound: 768 MiB + 64 x input = %d MiB)",
 			live>>20, len(c.Data), limit>>20)}, true, true
-	case <-timer.C:
+	case <-expired:
 		mw.finish()
 		abandon(done)
 		return res, false, false
@@ -147,13 +159,14 @@ func runOnce(c *Case, budget time.Duration) (res outcome, finished bool, fatal b
 }
 
 // Caps of the time budgets.  A walk of a seed-sized input takes milliseconds,
-// the most expensive legitimate one (256 MiB drained) a few seconds; a
-// confirming run of 200 s (400 s on a loaded machine), alone, three times in
-// a row, leaves four to five orders of magnitude.  Without the cap a real
-// hang on a 100 KB input would be confirmed only after two hours.
+// the most expensive legitimate one (256 MiB drained through the slowest
+// decoder) about ten seconds of CPU time; a confirming run gets up to 120 s
+// of CPU time of its own thread (which the load of the machine does not
+// inflate) and 16 min of wall-clock time, three times.  Without the cap a
+// real hang on a 100 KB input would be confirmed only after hours.
 const (
 	suspectCap = 90 * time.Second
-	confirmCap = 200 * time.Second
+	confirmCap = 120 * time.Second
 )
 
 // abandoned counts walks which were given up on and are still running.
@@ -167,6 +180,101 @@ func abandon(done chan outcome) {
 	}()
 }
 
+// threadCPU returns the CPU time consumed so far by the OS thread tid of this
+// process (0 if it cannot be read).
+func threadCPU(tid int64) time.Duration {
+	b, err := os.ReadFile(fmt.Sprintf("/proc/self/task/%d/stat", tid))
+	if err != nil {
+		return 0
+	}
+	i := bytes.LastIndexByte(b, ')')
+	if i < 0 {
+		return 0
+	}
+	f := strings.Fields(string(b[i+1:]))
+	if len(f) < 13 {
+		return 0
+	}
+	ut, _ := strconv.ParseInt(f[11], 10, 64)
+	st, _ := strconv.ParseInt(f[12], 10, 64)
+	return time.Duration(ut+st) * 10 * time.Millisecond // USER_HZ is 100 on Linux
+}
+
+// watchBudget signals when the wall-clock budget is used up, or when every
+// one of the given walk threads has consumed more than the CPU budget.
+func watchBudget(tids []*atomic.Int64, cpuBudget, wallBudget time.Duration, stop <-chan struct{}) <-chan string {
+	out := make(chan string, 1)
+	go func() {
+		t0 := time.Now()
+		tick := time.NewTicker(200 * time.Millisecond)
+		defer tick.Stop()
+		for {
+			select {
+			case <-stop:
+				return
+			case <-tick.C:
+			}
+			if time.Since(t0) > wallBudget {
+				out <- "wall"
+				return
+			}
+			all := len(tids) > 0
+			for _, t := range tids {
+				id := t.Load()
+				if id == 0 || threadCPU(id) <= cpuBudget {
+					all = false
+				}
+			}
+			if all {
+				out <- "cpu"
+				return
+			}
+		}
+	}()
+	return out
+}
+
+// confirmParallel walks the case three more times, concurrently.  It reports
+// the first outcome, or finished == false if none of the runs ends within
+// the budget.
+func confirmParallel(c *Case, cpuBudget, wallBudget time.Duration) (res outcome, finished bool) {
+	mode := modes[((c.Mode%3)+3)%3]
+	done := make(chan outcome, 3)
+	tids := []*atomic.Int64{new(atomic.Int64), new(atomic.Int64), new(atomic.Int64)}
+	for i := 0; i < 3; i++ {
+		one := make(chan outcome, 1)
+		tid := tids[i]
+		go func() {
+			var o outcome
+			runtime.LockOSThread()
+			tid.Store(int64(syscall.Gettid()))
+			defer func() {
+				if r := recover(); r != nil {
+					o.err = fmt.Errorf("panic outside a step: %v\n%s", r, trimStack(debug.Stack()))
+				}
+				runtime.UnlockOSThread()
+				one <- o
+			}()
+			o.st, o.err = Walk(c.Data, mode, c.Password)
+		}()
+		abandoned.Add(1)
+		go func() {
+			o := <-one
+			abandoned.Add(-1)
+			done <- o
+		}()
+	}
+	c.disturbed = true
+	stop := make(chan struct{})
+	defer close(stop)
+	select {
+	case res = <-done:
+		return res, true
+	case <-watchBudget(tids, cpuBudget, wallBudget, stop):
+		return res, false
+	}
+}
+
 // checkCase is the oracle.  Time: the budget of 5 s + 1 ms/byte (scaled with
 // the load of the machine) only makes a case suspect; it is then re-run up to
 // three times with 20 times the budget and reported as a hang only if none of
@@ -175,19 +283,27 @@ func checkCase(c *Case) error {
 	journal(c)
 	c.st, c.timing, c.excluded, c.disturbed = nil, "", nil, false
 	base := baseBudget(len(c.Data))
-	// The first budget only decides whether the case is looked at again, so
-	// it may be capped (large inputs on a loaded machine would otherwise wait
-	// for an hour before the confirming runs even start).
-	res, finished, fatal := runOnce(c, min(time.Duration(float64(base)*loadScale()), suspectCap))
+	// Time is measured twice: as CPU time of the walk's own thread, which
+	// does not depend on the load of the machine, and as wall-clock time
+	// (scaled with the load) for walks which wait instead of computing.
+	// The first budget only decides whether the case is looked at again.
+	res, finished, fatal := runOnce(c, base, min(time.Duration(float64(base)*loadScale()), suspectCap))
 	if !finished {
-		for try := 0; try < 3 && !finished; try++ {
-			// the confirming runs get 20 times the budget; the load factor
-			// is capped here, or a real hang would be waited for for hours
-			res, finished, fatal = runOnce(c, time.Duration(float64(min(20*base, confirmCap))*min(loadScale(), 2)))
+		// the confirming runs get 20 times the budget (capped) of CPU time
+		// each, and eight times that of wall-clock time
+		cpuB := min(20*base, confirmCap)
+		if runtime.NumCPU() >= 4 {
+			// side by side: each run is judged by the CPU time of its own
+			// thread (the memory and goroutine oracles are suspended anyway)
+			res, finished = confirmParallel(c, cpuB, 8*cpuB)
+		} else {
+			for try := 0; try < 3 && !finished; try++ {
+				res, finished, fatal = runOnce(c, cpuB, 8*cpuB)
+			}
 		}
 		if !finished {
-			msg := fmt.Sprintf("hang: walking %d bytes in mode %s did not finish within %v, nor within %v in any of three further runs (budget 5 s + 1 ms/byte, x20 capped at %v, scaled by the load of the machine)",
-				len(c.Data), modeNames[c.Mode%3], min(base, suspectCap), min(20*base, confirmCap), confirmCap)
+			msg := fmt.Sprintf("hang: walking %d bytes in mode %s did not finish within %v of CPU time, nor within %v of CPU time in any of three further runs (budget 5 s + 1 ms/byte, x20 capped at %v; CPU time of the walk's own thread, wall-clock limit 8 x that)",
+				len(c.Data), modeNames[c.Mode%3], base, min(20*base, confirmCap), confirmCap)
 			if !replaying {
 				vt.Fatal(property, kindCase, c, msg)
 			}
@@ -438,6 +554,10 @@ func TestSeeds(t *testing.T) {
 				st.Exclude(f)
 			}
 			st.Sample(func() any { return render(&c) })
+			if os.Getenv("C05_SEED_TRACE") != "" && c.st != nil {
+				fmt.Printf("TRACE %-50s %-7s %8.1fms stage=%s fonts=%d fonterrs=%d glyphmaps=%d ops=%d openerr=%q\n", s.Name, modeNames[mode],
+					float64(c.wall.Microseconds())/1000, stageNames[c.st.Stage], c.st.Fonts, c.st.FontErrs, c.st.GlyphMaps, c.st.Ops, c.st.OpenErr)
+			}
 			if err != nil {
 				vt.Violation(property, kindCase, &c, err.Error())
 				t.Errorf("seed %s mode %s: %v", s.Name, modeNames[mode], err)
